@@ -12,6 +12,9 @@ A case (engine=loop) is one program + one schedule:
                                functor owns): runs where the loop lets go of the functor — after the batch it was part of
                                has run (doPendingFunctors), or when an inline runInLoop() returns; event `T<k> dtor <id>`
     pre: <subs>                what the owner does before loop() (elt: in the ThreadInitCallback)
+    again: <subs>              plain mode, repeatable: after loop() has returned the owner runs this segment outside loop()
+                               and calls loop() AGAIN on the same object (quit_ is re-armed on the way out).  A "run" is
+                               one loop:entry … returned; the queue, the eventfd and the submission order go on across runs
     thread <k>: <subs>         program of thread k (plain: foreign threads k >= 1; elt: k = 0, the owner of the EventLoopThread)
     follow <k …> | schedule <int …>   (+ `spurious`: with a raw schedule the scheduler may wake a condition waiter
                                        nobody notified)
@@ -64,6 +67,7 @@ class Prog:
         self.tasks = {}      # id -> [sub]
         self.dtors = {}      # id -> [sub]: destructor body of what the task's functor object owns
         self.pre = []
+        self.again = []      # plain: [[sub]] — segments after loop() returned, each followed by another loop()
         self.threads = {}    # k -> [sub]
         self.follow = None
         self.schedule = None
@@ -75,6 +79,7 @@ class Prog:
         p.tasks = {k: list(v) for k, v in self.tasks.items()}
         p.dtors = {k: list(v) for k, v in self.dtors.items()}
         p.pre = list(self.pre)
+        p.again = [list(v) for v in self.again]
         p.threads = {k: list(v) for k, v in self.threads.items()}
         p.follow = None if self.follow is None else list(self.follow)
         p.schedule = None if self.schedule is None else list(self.schedule)
@@ -89,6 +94,9 @@ class Prog:
             if self.dtors[i]:
                 out.append("dtor %d: %s" % (i, " ".join(self.dtors[i])))
         out.append("pre: " + " ".join(self.pre))
+        if self.mode == "plain":
+            for seg in self.again:
+                out.append("again: " + " ".join(seg))
         ks = sorted(self.threads)
         if self.mode == "plain" and ks:
             ks = list(range(1, max(ks) + 1))
@@ -136,6 +144,8 @@ def parse_case(lines):
             subs = body.split()
             if hw[0] == "pre":
                 p.pre = subs
+            elif hw[0] == "again":
+                p.again.append(subs)
             elif hw[0] == "task":
                 p.tasks[int(hw[1])] = subs
             elif hw[0] == "dtor":
@@ -430,6 +440,11 @@ def oracle(prog, lines):
                         else "before loop() returned" + (", from a functor of the final drain" if appended[drained][1] == L else "")))
             phase = "returned"
             returned = True
+            if what == "returned":
+                # plain mode: loop() may be entered again.  The return re-armed quit_: a flag stored from here on is a
+                # request to the next run; the queue, the eventfd and the order of submissions go on.
+                quit_seen = False
+                quit_mark = None
         elif what == "destroyed":
             destroyed = True
             phase = "destroyed"
@@ -538,6 +553,18 @@ def gen_plain(rng, size=None):
         # two quitters
         for k in {rng.randrange(1, nthr + 1), rng.randrange(1, nthr + 1)}:
             p.threads[k].append("quit")
+    if rng.random() < 0.3:
+        # loop() is entered again (once or twice) after it has returned: the owner queues / runs / posts in between,
+        # quits before the next call, inside it (a task that quits runs again) or leaves that to a foreign thread whose
+        # program spans the runs; without any of these the last run ends asleep in poll
+        for _ in range(rng.choice([1, 1, 2])):
+            seg = _subs(rng, rng.choice([0, 1, 1, 2]), ids)
+            if rng.random() < 0.25:
+                seg.insert(rng.randrange(0, len(seg) + 1), "quit")
+            p.again.append(seg)
+            if nthr and rng.random() < 0.5:
+                k = rng.randrange(1, nthr + 1)
+                p.threads[k] += _subs(rng, rng.choice([0, 1]), ids) + ["quit"]
     return p
 
 
@@ -669,6 +696,19 @@ def sweeps():
         p.threads[1] = ["quit"]
         p.follow = [0] * i + [1] * 8 + [0] * 120
         out.append(("sweep-dtor-final-drain", p))
+    # loop() entered again: task 1 (queued before the first call) quits; the owner then queues task 2 / runs it inline and
+    # queues 4 / only re-enters, and calls loop() again; a foreign submission placed at every step of both runs and of
+    # the stretch between them, a foreign quit afterwards
+    for seg in (["q2"], ["r2", "q4"], []):
+        for i in range(0, 36, 1 if seg == ["q2"] else 2):
+            p = Prog()
+            p.tasks = {1: ["quit"], 2: [], 3: [], 4: []}
+            p.pre = ["q1"]
+            p.again = [list(seg)]
+            p.threads[1] = ["q3"]
+            p.threads[2] = ["quit"]
+            p.follow = [0] * i + [1] * 8 + [0] * 60 + [2] * 4 + [0] * 40
+            out.append(("sweep-reenter", p))
     # ~EventLoopThread at every point of the new thread's progress (with and without an init callback that queues)
     for pre in ([], ["q1"]):
         for i in range(0, 20):
@@ -751,6 +791,8 @@ def contexts(prog, impl):
                     elif bodies and bodies[-1] == "d":
                         seen.add("%s:dtor" % names[kind])
                         seen.add("%s:dtor@%s%s" % (names[kind], phase, "-inline" if "t" in bodies else ""))
+                    elif phase == "returned":
+                        seen.add("%s:between-runs" % names[kind])
                     elif phase in ("before", "published"):
                         seen.add("%s:before-loop" % names[kind])
                     elif depth >= 2:
@@ -791,6 +833,8 @@ def contexts(prog, impl):
                  "point loop:afterFunctors": "between", "point loop:exit": "exiting", "returned": "returned",
                  "point threadFunc:loopReturned": "returned", "destroyed": "destroyed",
                  "point threadFunc:published": "published"}
+            if what == "point loop:entry" and phase == "returned":
+                seen.add("loop:entered-again")
             if what in m:
                 phase = m[what]
             elif what == "point doPendingFunctors:beforeSwap":
@@ -815,6 +859,10 @@ def _atoms(prog):
             a.append("dtor|%d|%d|%s" % (i, j, s))
     for j, s in enumerate(prog.pre):
         a.append("pre|0|%d|%s" % (j, s))
+    for i, seg in enumerate(prog.again):
+        a.append("againseg|%d|0|-" % i)            # the re-entry itself (an empty segment still calls loop() again)
+        for j, s in enumerate(seg):
+            a.append("again|%d|%d|%s" % (i, j, s))
     for k in sorted(prog.threads):
         for j, s in enumerate(prog.threads[k]):
             a.append("thread|%d|%d|%s" % (k, j, s))
@@ -831,8 +879,15 @@ def _rebuild(prog, atoms):
     p.tasks = {i: [] for i in prog.tasks}
     p.threads = {k: [] for k in prog.threads}
     sched = []
+    segs = {}
     for a in atoms:
         kind, idx, _, val = a.split("|")
+        if kind == "againseg":
+            segs.setdefault(int(idx), [])
+            continue
+        if kind == "again":
+            segs.setdefault(int(idx), []).append(val)
+            continue
         if kind == "task":
             p.tasks[int(idx)].append(val)
         elif kind == "dtor":
@@ -843,6 +898,7 @@ def _rebuild(prog, atoms):
             p.threads[int(idx)].append(val)
         else:
             sched.append(int(val))
+    p.again = [segs[i] for i in sorted(segs)]
     if prog.follow is not None:
         p.follow = sched
     else:
